@@ -63,8 +63,9 @@ def get_keywords(directory: str = "") -> Registry:
     """Get keyword search functions from a directory"""
     directory = directory or os.path.join(next(iter(multidecoder.__path__)), "keywords")
     keyword_map: Registry = []
-    for subdir, _, files in os.walk(directory):
-        for file_name in files:
+    for subdir, dirs, files in os.walk(directory):
+        dirs.sort()  # enumerate the keyword files in an order that does not depend on the file system
+        for file_name in sorted(files):
             with open(os.path.join(subdir, file_name), "rb") as keyword_file:
                 keywords = set(keyword_file.read().splitlines())
                 keywords.discard(b"")
